@@ -254,4 +254,21 @@ META["C09"] = {
     "assumptions": ["placements x lambdas bounded as stated"],
 }
 
+META["C10"] = {
+    "level": "exploration",
+    "level_text": "Bounded contract check on the real operators of an untyped stream: ~650 "
+    "expressions (depth <= 2 enumerated over a name pool that includes ast-meaningful names, depth 3 "
+    "sampled; dict literals with non-identifier keys; every designed refusal) x Select/SelectMany/"
+    "Where x lambda supplied as source string and as AST, and every third one as a capture-free "
+    "Python callable compiled from a generated source module: the emitted lambda must be "
+    "structurally the given one, the only exceptions the designed ValueErrors. Thorough: ~10x more.",
+    "level_note": "Bounded stand-in; the totality-by-safety-obligations proof of DESIGN §4 C10 over "
+    "type_transformer is not in this build.",
+    "technique": "bounded contract check (exhaustive to depth 2, sampled beyond) of the pass-through / explicit-refusal contract on the real operators (labelled stand-in)",
+    "p_keys": False,
+    "explanation": "bounded only",
+    "assumptions": ["expression depth bounded; names from a fixed pool"],
+    "b_timeout": 400,
+}
+
 NOT_APPLICABLE = {}
